@@ -842,7 +842,9 @@ def syscall_tier(dc, sc, res, rng, prog_id, spec, label, budget, journal='wal'):
             os.unlink(fn)
     points = [(sname, n) for sname, c in work.items() for n in range(1, c + 1)]
     if not points:
-        res.inconclusive.append('%s: no file-mutating syscalls seen in the workload phase' % label)
+        # a random program may consist of calls that change nothing (lookups, removals of absent keys): nothing to kill
+        # at.  The tier as a whole must still have judged kills (`syscall_kills_judged` is a required counter).
+        res.count('syscall_tier_programs_without_mutating_syscalls')
         return
     rng.shuffle(points)
     for sname, n in points[:budget]:
